@@ -12,7 +12,10 @@
 //     Snapshot that created i (the twin is the reference model: a persistent copy of the state);
 //   - after end-of-block, redoing the published change logs on a fresh manager over the same parent
 //     (Manager.RebuildAll, the light-node path) gives the same observation for every attribute that
-//     redo defines.
+//     redo defines;
+//   - after end-of-block, the published change logs (byte for byte, in their consensus encoding) and
+//     the observation incl. all roots equal those of a reference run that executed only the events
+//     NOT undone by a revert ("a transaction the miner discards leaves no trace at all").
 package main
 
 import (
@@ -29,6 +32,7 @@ import (
 	"github.com/LemoFoundationLtd/lemochain-core/chain/account"
 	"github.com/LemoFoundationLtd/lemochain-core/chain/types"
 	"github.com/LemoFoundationLtd/lemochain-core/common"
+	"github.com/LemoFoundationLtd/lemochain-core/common/rlp"
 	"github.com/LemoFoundationLtd/lemochain-core/store"
 )
 
@@ -118,9 +122,14 @@ var scenarios = map[string][]string{
 	"D7": {"sui C", "bal C 1", "eq C i0 5"},
 	"D8": {"code B c1", "bal B 1", "ev B 2"},
 	"D9": {"aid A i1 m3", "ac A c1 3", "acts A c1 4"},
+	// an account whose four trie roots are still zero: first-ever writes into each trie, undone or not,
+	// next to another change of the same account (so that end-of-block processes the account)
+	"D10": {"st B k0 v1", "st B k0 -", "bal B 1"},
+	"D11": {"eq B i0 1", "eq B i0 nil", "bal B 1"},
+	"D12": {"ac B c1 3", "aid B i1 m3", "bal B 1"},
 }
 
-var deep = map[string]bool{"D1": true, "D2": true, "D3": true, "D4": true, "D5": true, "D6": true, "D7": true, "D8": true, "D9": true}
+var deep = map[string]bool{"D1": true, "D2": true, "D3": true, "D4": true, "D5": true, "D6": true, "D7": true, "D8": true, "D9": true, "D10": true, "D11": true, "D12": true}
 
 // enabledEvent restricts the alphabet to sequences the system can produce (see DESIGN.md, C07):
 // code is written once per address (EVM.Create refuses an address that has code), SELFDESTRUCT is a
@@ -559,6 +568,19 @@ func run(hist []string) core.Outcome {
 			viol("redo-differs/fields="+names, fmt.Sprintf("redo of the published change logs differs from execution after %v (want = execution, got = redo):\n%s", evs, detail))
 		}
 		o.Tags = append(o.Tags, "fin:"+core.Hash(want))
+		// no-trace oracle: the block must be the one that the surviving events alone produce
+		if eff, undone := surviving(evs[:len(evs)-1]); undone {
+			ref, _ := replay(append(eff, "fin"))
+			wantLogs, gotLogs := renderLogs(ref.GetChangeLogs()), renderLogs(logs)
+			wantObs, gotObs := observe(ref, true), observe(am, true)
+			if wantLogs != gotLogs {
+				viol("undone-events-leave-trace/logs="+logDiffKinds(ref.GetChangeLogs(), logs), fmt.Sprintf("after %v the published change logs differ from those of the surviving events %v alone:\nwith the undone events : %s\nsurviving events only : %s", evs, eff, gotLogs, wantLogs))
+			} else if wantObs != gotObs {
+				names, detail := diffFields(wantObs, gotObs)
+				viol("undone-events-leave-trace/fields="+names, fmt.Sprintf("after %v the end-of-block state differs from that of the surviving events %v alone:\n%s", evs, eff, detail))
+			}
+			o.Tags = append(o.Tags, "no-trace-checked")
+		}
 	}
 
 	if finished {
@@ -586,6 +608,71 @@ func run(hist []string) core.Outcome {
 	en = append(en, "fin")
 	o.Enabled = en
 	return o
+}
+
+// surviving returns the events that no revert has undone (snapshots and reverts themselves are
+// dropped: they do not write), and whether anything was undone at all. Revision ids are the number
+// of Snapshot events before the one that created them.
+func surviving(evs []string) (eff []string, undone bool) {
+	var snapLen []int // snapLen[id] = len(eff) when revision id was created
+	for _, e := range evs {
+		f := strings.Fields(e)
+		switch f[0] {
+		case "snap":
+			snapLen = append(snapLen, len(eff))
+		case "rev":
+			id, _ := strconv.Atoi(f[1])
+			if len(eff) > snapLen[id] {
+				undone = true
+			}
+			eff = eff[:snapLen[id]]
+		default:
+			eff = append(eff, e)
+		}
+	}
+	return append([]string{}, eff...), undone
+}
+
+// renderLogs is the list of published logs in their consensus (RLP) encoding.
+func renderLogs(logs types.ChangeLogSlice) string {
+	var sb strings.Builder
+	for _, l := range logs {
+		b, err := rlp.EncodeToBytes(l)
+		if err != nil {
+			fmt.Fprintf(&sb, "[%s %x v%d !%v] ", l.LogType, l.Address.Bytes()[18:], l.Version, err)
+			continue
+		}
+		fmt.Fprintf(&sb, "[%s %x v%d %x] ", l.LogType, l.Address.Bytes()[18:], l.Version, b)
+	}
+	return sb.String()
+}
+
+// logDiffKinds names the log types that are in one list and not in the other (fingerprint part).
+func logDiffKinds(want, got types.ChangeLogSlice) string {
+	cnt := map[string]int{}
+	for _, l := range got {
+		b, _ := rlp.EncodeToBytes(l)
+		cnt[fmt.Sprintf("%s|%x", l.LogType, b)]++
+	}
+	for _, l := range want {
+		b, _ := rlp.EncodeToBytes(l)
+		cnt[fmt.Sprintf("%s|%x", l.LogType, b)]--
+	}
+	set := map[string]bool{}
+	for k, n := range cnt {
+		t := k[:strings.Index(k, "|")]
+		if n > 0 {
+			set["+"+t] = true
+		} else if n < 0 {
+			set["-"+t] = true
+		}
+	}
+	l := make([]string, 0)
+	for k := range set {
+		l = append(l, k)
+	}
+	sort.Strings(l)
+	return strings.Join(l, ",")
 }
 
 // diffFields names the observation fields that differ (part of the fingerprint) and renders them.
